@@ -208,7 +208,7 @@ def gen_lexicon(rng, lmfver, lexid, lexver, profile=None, base=None, language=No
 
     lex = {
         'id': lexid,
-        'label': label if label is not None else g.attr_string(),
+        'label': label if label is not None else ('' if r.random() < 0.04 else g.attr_string()),
         'language': language or r.choice(['en', 'fr', 'ja', 'en-GB']),
         'email': g.attr_string(),
         'license': g.attr_string(),
